@@ -48,6 +48,19 @@ theorem zigzag_roundtrip (w : Nat) (hw : 0 < w) (i : Int)
     zigzagEnc i < 2 ^ w ∧ zigzagDec (zigzagEnc i) = i :=
   ⟨zigzagEnc_lt w hw i h1 h2, zigzagDec_zigzagEnc i⟩
 
+/-- The two's-complement bit trick of `postcard.rs` (`(v << 1) ^ (v >> (BITS-1))` and
+`(u >> 1) ^ -(u & 1)` on a `w`-bit register) computes exactly the arithmetic zigzag used by the model,
+for every width `w` (the code instantiates 16, 32, 64, 128). -/
+theorem zigzag_bit_trick (w : Nat) (hw : 0 < w) (x u : BitVec w) :
+    (zigzagEncBits w x).toNat = zigzagEnc x.toInt ∧ (zigzagDecBits w u).toInt = zigzagDec u.toNat :=
+  ⟨zigzagEncBits_toNat w hw x, zigzagDecBits_toInt w hw u⟩
+
+/-- Hence on the register itself: decoding the zigzag of any `w`-bit signed value gives it back. -/
+theorem zigzag_bits_roundtrip (w : Nat) (hw : 0 < w) (x : BitVec w) :
+    zigzagDecBits w (zigzagEncBits w x) = x := by
+  apply BitVec.eq_of_toInt_eq
+  rw [zigzagDecBits_toInt w hw, zigzagEncBits_toNat w hw, zigzagDec_zigzagEnc]
+
 /-- … and zigzag is a bijection between the integers and the naturals (no two values collide). -/
 theorem zigzag_surjective (n : Nat) : zigzagEnc (zigzagDec n) = n := zigzagEnc_zigzagDec n
 
@@ -57,13 +70,14 @@ theorem zigzag_surjective (n : Nat) : zigzagEnc (zigzagDec n) = n := zigzagEnc_z
 to the original, consuming exactly the bytes that were written.  Encodings are self-delimiting"* —
 equality (up to skipped fields, which come back as their declared default: `normalize`), exact
 consumption and self-delimitation in one statement: whatever follows the encoding is left untouched.
-Stated for the decoder with finding F7 repaired (`decode true`); every type, unbounded nesting. -/
+`decode true` is the decoder as it is (BitVec decoding mirrors its encoding since /repo commit e089897, which
+fixed finding F7); every type, unbounded nesting, no side condition. -/
 theorem decode_encode (t : Ty) (v : Val) (rest : Bytes) (hw : wt t v = true) :
     decode true t (encode t v ++ rest) = .ok (normalize t v, rest) :=
   dec_enc true t v rest hw (Or.inl rfl)
 
-/-- The same for the code **as it is** (`decode false`): holds for every type in which no `BitVec`
-with a storage word wider than a byte occurs.  The excluded case is exactly finding F7
+/-- Historical (the decoder **before** commit e089897, `decode false`): the round trip held for every type in
+which no `BitVec` with a storage word wider than a byte occurs.  The excluded case was exactly finding F7
 (`bitvec_asis_counterexample` below). -/
 theorem decode_encode_asis_partial (t : Ty) (v : Val) (rest : Bytes) (hw : wt t v = true)
     (hb : t.noWideBitvec = true) :
@@ -82,7 +96,7 @@ theorem skipped_field_default (fix : Bool) (d v : Val) (rest : Bytes) :
     encode (.skip d) v = [] ∧ decode fix (.skip d) rest = .ok (d, rest) := by
   simp [encode, decode, pure, Except.pure]
 
-/-- The full statement for the unrepaired code — false, see `asis_full_statement_false`. -/
+/-- The full statement for the decoder before commit e089897 — false, see `asis_full_statement_false`. -/
 def C12_asis_full_statement : Prop :=
   ∀ (t : Ty) (v : Val) (rest : Bytes), wt t v = true → decode false t (encode t v ++ rest) = .ok (normalize t v, rest)
 
@@ -103,11 +117,12 @@ theorem encode_inj_exact (t : Ty) (v₁ v₂ : Val) (h₁ : wt t v₁ = true) (h
   rwa [normalize_id t v₁ hs, normalize_id t v₂ hs] at this
 
 /-- *"values written back to back are read back in the same sequence"* — any number of values of any
-types. -/
+types, for the code as it is (`decodeAll true`). -/
 theorem back_to_back (tvs : List (Ty × Val)) (rest : Bytes) (h : ∀ tv ∈ tvs, wt tv.1 tv.2 = true) :
     decodeAll true (tvs.map (·.1)) (encodeAll tvs ++ rest) = .ok (tvs.map (fun tv => normalize tv.1 tv.2), rest) :=
   dec_enc_all true tvs rest (fun tv htv => ⟨h tv htv, Or.inl rfl⟩)
 
+/-- Historical counterpart for the decoder before commit e089897. -/
 theorem back_to_back_asis_partial (tvs : List (Ty × Val)) (rest : Bytes)
     (h : ∀ tv ∈ tvs, wt tv.1 tv.2 = true ∧ tv.1.noWideBitvec = true) :
     decodeAll false (tvs.map (·.1)) (encodeAll tvs ++ rest) = .ok (tvs.map (fun tv => normalize tv.1 tv.2), rest) :=
@@ -141,7 +156,7 @@ theorem interned_sharing (hash : Nat → Val → Nat) (S : Nat → Val → Prop)
 
 /-! ### BitVec (feature `bitvec`), finding F7 -/
 
-/-- Finding F7, as the code is: a well-typed `BitVec<usize, Lsb0>` of 9 bits (only bit 8 set) is
+/-- Finding F7 (fixed by /repo commit e089897), as the code was: a well-typed `BitVec<usize, Lsb0>` of 9 bits (only bit 8 set) is
 decoded to a different value (bit 7 set, bit 8 clear). -/
 theorem bitvec_asis_counterexample :
     wt (.bitvec .wsize false) (.bits 9 [256]) = true ∧
@@ -155,22 +170,23 @@ theorem bitvec_asis_counterexample_consumed :
       = some 1 := by
   decide
 
-/-- Hence the unrestricted statement about the unrepaired code is false. -/
+/-- Hence the unrestricted statement about the pre-e089897 decoder is false. -/
 theorem asis_full_statement_false : ¬ C12_asis_full_statement := by
   intro h
   have := h (.bitvec .wsize false) (.bits 9 [256]) [] (by decide)
   revert this
   decide
 
-/-- With the decoder mirroring the encoder (`/verif/fixes/F7-bitvec-decode.diff`) every BitVec, of
-every store width and bit order, round-trips exactly — dead bits of the last word included. -/
+/-- With the decoder mirroring the encoder (`/verif/fixes/F7-bitvec-decode.diff` = /repo commit e089897, the code
+as it is) every BitVec, of every store width and bit order, round-trips exactly — dead bits of the last word
+included. -/
 theorem bitvec_roundtrip_repaired (w : IntW) (msb : Bool) (len : Nat) (words : List Nat) (rest : Bytes)
     (hw : wt (.bitvec w msb) (.bits len words) = true) :
     decode true (.bitvec w msb) (encode (.bitvec w msb) (.bits len words) ++ rest) = .ok (.bits len words, rest) := by
   have := dec_enc true (.bitvec w msb) (.bits len words) rest hw (Or.inl rfl)
   simpa [normalize] using this
 
-/-- `BitVec<u8, _>` is fine as the code is. -/
+/-- `BitVec<u8, _>` was fine even before the fix. -/
 theorem bitvec_u8_roundtrip_asis (msb : Bool) (len : Nat) (words : List Nat) (rest : Bytes)
     (hw : wt (.bitvec .w8 msb) (.bits len words) = true) :
     decode false (.bitvec .w8 msb) (encode (.bitvec .w8 msb) (.bits len words) ++ rest) = .ok (.bits len words, rest) := by
